@@ -32,6 +32,14 @@ func rangeDescs() []string {
 		"+1:+5", "-5:-1:2", "4611686018427387900:4611686018427387904:2", "0:20:20", "0:20:21", "7", "1::5", "3:1:0", "3:1:-1"}
 }
 
+// descriptions that end within one step of the int64 limit: two, one, three, two, two and one values -- the enumeration
+// must stop there (F19).  Parser-level cases only: as `between` operands they put a bound on MaxInt64, where the harness
+// cannot read the bounds back (Range.String tests the LEFT bound for +inf) and the property's domain ends (2^62).
+func limitDescs() []string {
+	return []string{"9223372036854775806:9223372036854775807", "9223372036854775807:9223372036854775807", "9223372036854775800:9223372036854775806:3",
+		"0:9223372036854775807:4611686018427387904", "-9223372036854775808:-9223372036854775807", "9223372036854775805:9223372036854775806:2"}
+}
+
 func betweenValues() []TV {
 	i64 := func(v int64) TV { return tvInt("int64", v) }
 	return []TV{
@@ -81,6 +89,14 @@ func init() {
 				// lists of descriptions in every relative position: later below, later wider, overlapping, stepped, repeated
 				tvSlice("[]string", tvStr("10:12"), tvStr("1:3")), tvSlice("[]string", tvStr("10:30:10"), tvStr("40:45")), tvList(tvStr("0:9:3"), tvStr("20:22"), tvStr("30:40:5"), tvStr("50:52")), tvSlice("[]string", tvStr("5:9"), tvStr("1:20")), tvSlice("[]string", tvStr("0:10:5"), tvStr("1:9:2")),
 				tvList(tvStr("10:12"), tvStr("1:3"), tvStr("11:13")), tvList(tvStr("1:5"), tvStr("3:8"), tvStr("1:5")), tvSlice("[]string", tvStr("7:7"), tvStr("7:7"), tvStr("2:2")))
+			for _, d := range limitDescs() {
+				for _, v := range []TV{tvStr(d), tvSlice("[]string", tvStr("1:3"), tvStr(d)), tvList(tvStr(d), tvStr("5:6"))} {
+					for _, p := range []string{"", "number", "strhash", "numrange"} {
+						add(pIn{K: "parse", Parser: p, Assign: false, V: v})
+						add(pIn{K: "parse", Parser: p, Assign: true, V: v})
+					}
+				}
+			}
 			for _, v := range shapes {
 				for _, p := range []string{"", "number", "strhash", "numrange"} {
 					add(pIn{K: "parse", Parser: p, Assign: false, V: v})
